@@ -99,7 +99,10 @@ def run_check(pid, tier, seed):
         if con is None:
             S.errors.append("no contract registered for %s" % q)
             continue
+        keep = getattr(pm, "CASE_FILTER", {}).get(q)
         for case in con.cases():
+            if keep is not None and not keep(case):
+                continue        # this property only needs some configurations of the function (the others: other checks)
             jobs.append((pid, "func", q, case, t_z3))
     for ln in getattr(pm, "LEMMAS", []):
         if ln not in lem.LEMMAS:
